@@ -9,7 +9,7 @@ for sid in $ids; do
   prop=$(python3 -c "import json;print(json.load(open('seeded/$sid/meta.json'))['breaks_property'])")
   git -C /repo diff --quiet || { echo "/repo dirty"; exit 2; }
   git -C /repo apply "$PWD/seeded/$sid/patch.diff" || { echo "$sid: patch does not apply"; continue; }
-  out=$(./check $prop $tier 2>&1); rc=$?
+  out=$(cd ${VERIF_ROOT:-.} && ./check $prop $tier 2>&1); rc=$?
   git -C /repo checkout -- .
   echo "$sid $prop $tier rc=$rc $(echo "$out" | grep -m1 -o 'VIOLATION C[0-9]*/[^:]*' | head -1)"
 done
